@@ -810,6 +810,78 @@ def install_ins(mon):
 INSTALLERS["ins"] = install_ins
 
 
+# --------------------------------------------------------------------------
+# Monitor "ins_levels": every threshold chosen during a real run honours the
+# *configured* min_samples / min_remove / max_samples (C17, run level).  The
+# values come from the job's keyword arguments, not from the sampler, so a
+# sampler that forgets its configuration (e.g. across a resume) is noticed.
+def install_ins_levels(mon):
+    from nessai.samplers.importancesampler import ImportanceNestedSampler
+
+    kw = mon.job.get("kwargs") or {}
+    ms = kw.get("min_samples")
+    mr = int(kw.get("min_remove", 1))
+    mx = kw.get("max_samples")
+    dc = bool(kw.get("draw_constant", True))
+    nlive = kw.get("nlive")
+    rec = mon.data.setdefault("ins_levels", {"n": 0, "cap_binding": 0})
+
+    def before(self, samples, *a, **k):
+        return np.array(samples["logL"], dtype=float, copy=True)
+
+    def after(self, logL, thr):
+        V = mon.violation
+        rec["n"] += 1
+        mon.count("ins_levels.thresholds")
+        size = len(logL)
+        try:
+            thr_f = float(thr)
+        except Exception:
+            V("runs:threshold-not-a-number", repr(thr))
+            return
+        K = np.flatnonzero(logL == thr_f)
+        if K.size == 0:
+            V("runs:threshold-not-a-live-likelihood",
+              f"it={self.iteration}: {thr_f!r} is not the likelihood of one "
+              f"of the {size} live samples")
+            return
+        k_lo, k_hi = int(K[0]), int(K[-1])
+        info = (f"it={self.iteration} size={size} threshold index in "
+                f"[{k_lo},{k_hi}] configured min_samples={ms} "
+                f"min_remove={mr} max_samples={mx} nlive={nlive} "
+                f"draw_constant={dc}")
+        cap_on = dc and mx is not None and nlive is not None
+        if cap_on:
+            if size - k_hi + nlive > mx:
+                V("runs:cap:next-level>max_samples", info)
+            if size - max(k_lo - 1, 0) + nlive > mx:
+                rec["cap_binding"] += 1
+                mon.classes.add("ins_levels:cap-binding")
+        if ms is not None:
+            # at least min_remove go, unless keeping min_samples forbids it
+            if not (k_hi >= mr or size - k_lo <= ms):
+                V("runs:min_remove:removed<min_remove", info)
+            # never fewer than min_samples kept (given that many exist),
+            # unless the cap demands it
+            if size >= ms and size - k_lo < ms and not (
+                    cap_on and size - k_lo + nlive >= mx):
+                V("runs:min_samples:kept<min_samples", info)
+        if getattr(self, "resumed", False) or mon.flags.get("ins_resumed"):
+            mon.classes.add("ins_levels:after-resume")
+
+    wrap(ImportanceNestedSampler, "determine_log_likelihood_threshold",
+         before, after)
+
+    def before_loop(self):
+        if getattr(self, "resumed", False):
+            mon.flags["ins_resumed"] = True
+
+    wrap(ImportanceNestedSampler, "nested_sampling_loop", before_loop, None)
+
+
+INSTALLERS["ins_levels"] = install_ins_levels
+
+
 def _post_results(mon, fs, job):
     from . import post
 
